@@ -354,9 +354,9 @@ def run(sched):
         if f["cls"] == "req":
             for rule in sched.get("autoreply", ()):
                 mt = rule.get("match", {})
-                if "b1more" in mt and f["b1m"] != mt["b1more"]:
+                if "b1more" in mt and f.get("b1m", -1) != mt["b1more"]:
                     continue
-                if "observe" in mt and f["obs"] != mt["observe"]:
+                if "observe" in mt and f.get("obs", -1) != mt["observe"]:
                     continue
                 if "r" in mt and r != mt["r"]:
                     continue
@@ -483,7 +483,9 @@ def run(sched):
                     self.count = getattr(self, "count", 0) + 1
                     plan = dict(self.plan, len=lens[(self.count - 1) % len(lens)])
                 renderable = outcome.startswith("raise:") and not outcome.startswith(("raise:py:", "raise:lib:"))
-                ev("release", h=self.n, inv=inv, x=outcome, loc=self.mark,
+                retcode = outcome.startswith("code:")
+                ev("release", h=self.n, inv=inv, x="retcode" if retcode else outcome, loc=self.mark,
+                   code=int(outcome[5:]) if retcode else 0,
                    plen=DIAG_LEN if renderable else (plan.get("len", 8) if plan.get("canon") else 0),
                    cid=(inv & 0xFF) if renderable else -1)
                 return produce(outcome, self.n, inv, plan)
@@ -686,6 +688,14 @@ def run(sched):
                         from aiocoap.transports.udp6 import UDP6EndpointAddress
 
                         m.remote = UDP6EndpointAddress(("ff02::fd", 5683, 0, 1), which._verif["mint"])
+                    elif step.get("resolve") is not None:
+                        # the destination still has to be resolved (an undecided remote as a URI leaves it): the
+                        # request sits in Context.find_remote_and_interface for `resolve` units before it reaches
+                        # the token manager
+                        from aiocoap.message import UndecidedRemote
+
+                        w.loop.resolve_delay = step["resolve"] / 1024.0
+                        m.remote = UndecidedRemote("coap", "[%s]" % sockaddr(step["r"])[0])
                     else:
                         m.remote = w.remote(which, step["r"])
                     ev("submit", r=step["r"], q=q, con=bool(step.get("con")), x=step.get("ctx", ""),
